@@ -200,7 +200,7 @@ def parseTable : Tk (Table × Status) := do
   let mut slices : Array TS := #[]
   for _ in [0:nsl] do
     let ncs ← nxN
-    let mut cols : Array (Option CS) := #[]
+    let mut tsl : TS := tsCreate
     for _ in [0:ncs] do
       let va ← parseVA
       let mut cs : CS := csCreate (.bit 0 0 [])
@@ -219,8 +219,8 @@ def parseTable : Tk (Table × Status) := do
             match csAddProperty cs name v with
             | .ok cs' => cs := cs'
             | .error e => first := e
-      if first = .ok then cols := cols.push (some cs)
-    if first = .ok then slices := slices.push ⟨cols.toList⟩
+      if first = .ok then tsl := tsAdd tsl cs
+    if first = .ok then slices := slices.push tsl
   pure (⟨tm, slices.toList⟩, first)
 
 /-- write calls until the first failure; (text, overall status, bytes) -/
@@ -236,7 +236,7 @@ def writeTableCalls (d : DCfg) (t : Table) : String × Status × Bytes := Id.run
   out := out ++ " ts="
   let mut i := 0
   for ts in t.slices do
-    let r := emitAll (writeTS d.cfg ts)
+    let r := emitAll (writeTSOf d.cfg t.tm ts)
     out := out ++ (if i > 0 then "," else "") ++ stI r.1
     bytes := bytes ++ r.2
     if r.1 ≠ .ok then return (out, r.1, bytes)
@@ -288,7 +288,7 @@ def reencodeDflt (d : DCfg) (tm : TM) (slices : List TS) : String := Id.run do
       match reencTS d ts with
       | .error e => st := e; out := out ++ s!" ts={stI e}"
       | .ok ts' =>
-        let r := emitAll (writeTS d.cfg ts')
+        let r := emitAll (writeTSOf d.cfg tm ts')
         out := out ++ s!" ts={stI r.1}"
         bytes := bytes ++ r.2
         st := r.1
@@ -498,7 +498,7 @@ def scRadd (d : DCfg) (b : Bytes) (k : Nat) : String := Id.run do
           cols := cols ++ [some (csCreate va)]
           cs := cs ++ ["0"]
         out := out ++ s!" cadd={",".intercalate cs}:{cols.length}"
-        let tw := emitAll (writeTS d.cfg ⟨cols⟩)
+        let tw := emitAll (writeTSOf d.cfg tm ⟨cols⟩)
         out := out ++ s!" tsw={stI tw.1}:{hexq d tw.2}"
         return out ++ " live=0"
 
@@ -718,7 +718,7 @@ def scFw (d : DCfg) : Tk String := do
   if st ≠ .ok then pure s!"build={stI st} live=0" else
   -- every call is made; the stream keeps refusing after the first refusal
   let calls : List WOut :=
-    [fhWrite, writeTM d.cfg t.tm] ++ t.slices.map (writeTS d.cfg) ++ [writeTSEnd]
+    [fhWrite, writeTM d.cfg t.tm] ++ t.slices.map (writeTSOf d.cfg t.tm) ++ [writeTSEnd]
   let step := fun (acc : Nat × List Status × Bytes) (w : WOut) =>
     let r := emit (some acc.1) w
     -- after a refusal the budget is 0; otherwise it shrinks by what was written
